@@ -570,6 +570,10 @@ bool Instance::configure_tx_txin() {
         }
         // put remainder on to-be-parsed stack
         for (size_t i = 0; i < wstack_to_stack; i++) {
+            if (wstack[i].size() > MAX_SCRIPT_ELEMENT_SIZE) {
+                fprintf(stderr, "witness stack item #%zu is %zu bytes (the limit for witness script inputs is %u)\n", i, wstack[i].size(), MAX_SCRIPT_ELEMENT_SIZE);
+                return false;
+            }
             push_del.push_back(strdup(HexStr(wstack[i]).c_str())); // TODO: use as is rather than hexing and dehexing
         }
     } else {
